@@ -442,9 +442,25 @@ class Inliner:
                 self.index[q] = (fn, cls, func, mn)
         self.counter = 0
 
+    def _local_helper(self, q):
+        """a small function defined inside another function that is only ever called there (never passed on or returned):
+        whether it is written as a closure or its body stands at the call sites is a matter of style"""
+        e = self.index.get(q)
+        if e is None or e[2] is None:
+            return False
+        fn, cls, outer, mn = e
+        if sum(1 for s in ast.walk(fn) if isinstance(s, ast.stmt)) > 12:
+            return False
+        for n in ast.walk(outer):
+            if isinstance(n, ast.Name) and n.id == fn.name and isinstance(n.ctx, ast.Load):
+                par_ok = any(isinstance(c, ast.Call) and c.func is n for c in ast.walk(outer))
+                if not par_ok:
+                    return False
+        return True
+
     def helper(self, q):
         e = self.index.get(q)
-        if e is None or q in self.known:
+        if e is None or (q in self.known and not self._local_helper(q)):
             return None
         fn = e[0]
         if isinstance(fn, ast.AsyncFunctionDef):
@@ -501,7 +517,7 @@ class Inliner:
         used = {}
         for q in list(self.index):
             fn, cls, func, mn = self.index[q]
-            if q in self.known or not any(s.endswith("<- " + q) for s in self.stats["sites"]):
+            if (q in self.known and not self._local_helper(q)) or not any(s.endswith("<- " + q) for s in self.stats["sites"]):
                 continue
             refs = 0
             for t in self.trees.values():
@@ -839,7 +855,12 @@ def _pure(e):
 
 
 def _reads_heap(e):
-    return any(isinstance(n, (ast.Attribute, ast.Subscript)) or (isinstance(n, ast.Call)) for n in ast.walk(e))
+    for n in ast.walk(e):
+        if isinstance(n, ast.Subscript):
+            return True
+        if isinstance(n, ast.Attribute) and not (isinstance(n.value, ast.Constant) and n.attr in ("join", "format")):
+            return True
+    return False
 
 
 def _effectful(s):
